@@ -346,15 +346,36 @@ func siteOf(block string) string {
 
 type raceRep struct{ a, b, text string }
 
+var (
+	accRe     = regexp.MustCompile(`(?:Read|Write|Previous read|Previous write)[^\n]* by (?:goroutine (\d+)|main goroutine)`)
+	createdRe = regexp.MustCompile(`^Goroutine (\d+) \([^)]*\) created at:`)
+)
+
 func parseRaces(out string) []raceRep {
 	var res []raceRep
 	for _, m := range raceRe.FindAllStringSubmatch(out, -1) {
 		blk := m[1]
 		parts := regexp.MustCompile(`\n\n`).Split(blk, -1)
+		// goroutines created by newTorrent are event loops (the access stack itself may be cut off before run())
+		loopG := map[string]bool{}
+		for _, p := range parts {
+			p = strings.TrimSpace(p)
+			if cm := createdRe.FindStringSubmatch(p); cm != nil {
+				lines := strings.Split(p, "\n")
+				if len(lines) > 1 && strings.Contains(lines[1], "/torrent.newTorrent()") {
+					loopG[cm[1]] = true
+				}
+			}
+		}
 		var acc []string
 		for _, p := range parts {
-			if strings.HasPrefix(strings.TrimSpace(p), "Read at") || strings.HasPrefix(strings.TrimSpace(p), "Write at") || strings.HasPrefix(strings.TrimSpace(p), "Previous") {
-				acc = append(acc, siteOf(p))
+			tp := strings.TrimSpace(p)
+			if strings.HasPrefix(tp, "Read at") || strings.HasPrefix(tp, "Write at") || strings.HasPrefix(tp, "Previous") {
+				site := siteOf(p)
+				if am := accRe.FindStringSubmatch(tp); am != nil && am[1] != "" && loopG[am[1]] {
+					site = "event-loop"
+				}
+				acc = append(acc, site)
 			}
 		}
 		if len(acc) >= 2 {
@@ -479,6 +500,30 @@ func TestC20Race(t *testing.T) {
 				rep.CountDistinct(m.Name)
 			}
 			rep.Sample(40, map[string]any{"method": m.Name, "calls_during_lifecycle": calls, "lifecycle_reached": reached})
+			// A party named only by an internal frame (its stack was cut off before the API entry point or the
+			// loop's run()) against an API party: the same race as "event-loop|<that API>" when this scenario
+			// reported that one with full stacks.
+			named := func(x string) bool {
+				return x == "event-loop" || strings.HasPrefix(x, "torrent.(*Torrent).") || strings.HasPrefix(x, "torrent.(*Session).")
+			}
+			for k, r := range attributed {
+				if named(r.a) && named(r.b) {
+					continue
+				}
+				api := r.a
+				if !named(api) {
+					api = r.b
+				}
+				if !named(api) || api == "event-loop" {
+					continue
+				}
+				x := []string{"event-loop", api}
+				sort.Strings(x)
+				if _, ok := attributed[x[0]+"|"+x[1]]; ok {
+					delete(attributed, k)
+					rep.Add("reports_with_cut_off_stack_matched_to_a_fully_attributed_race", 1)
+				}
+			}
 			keys := make([]string, 0, len(attributed))
 			for k := range attributed {
 				keys = append(keys, k)
